@@ -430,7 +430,16 @@ def rflag_refused_subscribe_is_flagged_failed(ctx):
     response_flag_matches_json(ctx, "C06.FLAG")
 
 
-LIB_RULES = [rflag_refused_subscribe_is_flagged_failed, r1_permit_before_handler, r2_permit_flow, r3_unsubscribe_answer, r4_release_on_last_drop, r5_unsubscribe_needs_no_permit, r6_cap_provenance, r7_table_writers, r8_no_relock, r9_connection_ids_are_fresh, r10_ids_spelled_alike, r11_table_entry_always_has_an_owner, r12_ws_connections_always_get_the_subscription_service, rcfg_config_verbatim, rids_wire_ids_derive_both]
+def rclosed_is_closed_keeps_its_two_sources(ctx):
+    """the table entry of a subscription goes when its last sink goes: the guard's Drop asks `is_unsubscribed()` whether
+    the unsubscribe call already removed it - that answer must not also turn true because the *connection* closed, else
+    entries of subscriptions that were alive at disconnect stay for ever (= C04.R2: closed = connection closed ||
+    unsubscribed, the two kept apart)"""
+    from . import c04
+    c04.r2_closed_check_first(ctx)
+
+
+LIB_RULES = [rclosed_is_closed_keeps_its_two_sources, rflag_refused_subscribe_is_flagged_failed, r1_permit_before_handler, r2_permit_flow, r3_unsubscribe_answer, r4_release_on_last_drop, r5_unsubscribe_needs_no_permit, r6_cap_provenance, r7_table_writers, r8_no_relock, r9_connection_ids_are_fresh, r10_ids_spelled_alike, r11_table_entry_always_has_an_owner, r12_ws_connections_always_get_the_subscription_service, rcfg_config_verbatim, rids_wire_ids_derive_both]
 CONFIGS_QUICK = ["libs-all", "corpus"]
 CONFIGS_THOROUGH = ["libs-all", "facade-full", "corpus"]
 
